@@ -72,3 +72,11 @@ Theorem C07_loaded_treeinfo_is_valid :
   tvalidate (F"treeinfo.Media") (ti_media x) = Ok tt.
 Proof. exact load_ti_valid. Qed.
 Print Assumptions C07_loaded_treeinfo_is_valid.
+
+(* the header-version gate is exactly the documented syntax: the regenerated pattern of Header._validate_version accepts
+   <digits>.<digits> (Python's $ also admits one trailing newline, O1) and nothing else *)
+From PM Require Import Base.Regex Proofs.LangProofs2 Gen.Regexes.
+Theorem C07_header_version_language :
+  forall s, re_matches re_header_version s = true <-> exists body, (s = body \/ s = body ++ [c_nl]) /\ DocHeaderVersion body.
+Proof. exact header_version_lang. Qed.
+Print Assumptions C07_header_version_language.
